@@ -779,6 +779,13 @@ def op_save_to_problem(form, r):
 
 
 def op_table_list_mismatch(form, r):
+    if r.random() < 0.35:
+        # the first select of a table-list group takes its choices from a file: there is no list to build the header row from
+        fn = r.choice(["places.csv", "towns.xml", "areas.geojson"])
+        g = {"k": "g", "c": {"name": f"{TOK}tl", "label": "TL", "appearance": "table-list"}, "ch": [
+            {"k": "q", "c": {"type": r.choice(["select_one_from_file ", "select_multiple_from_file "]) + fn, "name": f"{TOK}t1", "label": "A"}}]}
+        form["nodes"].append(g)
+        return Plan(form, tokens=["table-list", fn], row=rows_of(form)[id(g["ch"][0])][0], depth=1, note="from-file")
     if len(form.get("lists", [])) < 2:
         return None
     l1, l2 = form["lists"][0]["name"], form["lists"][1]["name"]
